@@ -161,6 +161,15 @@ Local Open Scope Z_scope.
 Lemma zs : forall a, Z.of_nat a + 1 = Z.of_nat (S a).
 Proof. intros. lia. Qed.
 
+Lemma zs2 : forall a, Z.of_nat a + 2 = Z.of_nat (S (S a)).
+Proof. intros. lia. Qed.
+
+Lemma ltb_nat_0 : forall a, (Z.of_nat a <? 0) = false.
+Proof. intros. apply Z.ltb_ge. lia. Qed.
+
+Lemma ltb_m1_0 : (-1 <? 0) = true.
+Proof. reflexivity. Qed.
+
 Lemma ltb_nat : forall a b, (Z.of_nat a <? Z.of_nat b) = (a <? b)%nat.
 Proof. intros. destruct (Z.ltb_spec (Z.of_nat a) (Z.of_nat b)); destruct (Nat.ltb_spec a b); try reflexivity; lia. Qed.
 
@@ -217,6 +226,20 @@ Proof.
   - assert (E : nth_error p a = None) by (apply nth_error_None; lia). now rewrite E.
   - rewrite Nat.min_l by lia. destruct (nth_error p a) as [d|] eqn:E.
     + rewrite (skipn_nth p a d E). cbn. now rewrite andb_true_r, N.eqb_sym.
+    + apply nth_error_None in E. rewrite skipn_all2 by lia. reflexivity.
+Qed.
+
+Lemma py_startswith_2 : forall p x y a,
+  py_startswith p [x; y] (Z.of_nat a) = char_at p a x && char_at p (S a) y.
+Proof.
+  intros p x y a. unfold py_startswith, char_at, zlen. rewrite ltb_nat, clamp_nat.
+  destruct (Nat.ltb_spec (length p) a) as [H|H].
+  - assert (E : nth_error p a = None) by (apply nth_error_None; lia). now rewrite E.
+  - rewrite Nat.min_l by lia. destruct (nth_error p a) as [d|] eqn:E.
+    + rewrite (skipn_nth p a d E). cbn [is_prefix]. rewrite (N.eqb_sym x d). f_equal.
+      destruct (nth_error p (S a)) as [d'|] eqn:E'.
+      * rewrite (skipn_nth p (S a) d' E'). cbn. now rewrite andb_true_r, N.eqb_sym.
+      * apply nth_error_None in E'. rewrite skipn_all2 by lia. reflexivity.
     + apply nth_error_None in E. rewrite skipn_all2 by lia. reflexivity.
 Qed.
 
@@ -314,8 +337,8 @@ Ltac sx := repeat first [ rewrite exec_seq | rewrite exec_assign | rewrite exec_
            cbn [N.eqb Pos.eqb negb orb andb].
 
 Ltac prim := repeat first
-  [ rewrite zs | rewrite ltb_nat | rewrite leb_nat | rewrite eqb_m1 | rewrite ltb_len | rewrite py_index_nat
-  | rewrite py_slice_nat | rewrite py_slice_tail | rewrite py_index_0 | rewrite py_startswith_char
+  [ rewrite zs | rewrite zs2 | rewrite ltb_nat_0 | rewrite ltb_m1_0 | rewrite ltb_nat | rewrite leb_nat | rewrite eqb_m1 | rewrite ltb_len | rewrite py_index_nat
+  | rewrite py_slice_nat | rewrite py_slice_tail | rewrite py_index_0 | rewrite py_startswith_char | rewrite py_startswith_2
   | rewrite py_find_rbr | rewrite py_replace_bsl | rewrite py_re_escape_1 | rewrite andb_true_r
   | rewrite orb_false_r | rewrite py_join_nil | progress unfold zlen | progress unfold char_at ].
 
